@@ -1,0 +1,157 @@
+//go:build verif
+
+package rueidis
+
+// Add-only exports for the verification harness (family "route": C03, C19, C20, C21, C23, C28).
+// Nothing here changes behaviour; the file is compiled only with -tags verif.
+
+import (
+	"context"
+	"sort"
+	"time"
+)
+
+// VerifRouteMsg builds a RedisMessage the way the RESP reader would: strings carry bytes,
+// aggregates carry values, integers carry intlen only.
+func VerifRouteMsg(typ byte, s string, n int64, vs []RedisMessage) RedisMessage {
+	m := RedisMessage{typ: typ}
+	switch typ {
+	case typeArray, typeMap, typeSet, typePush:
+		if vs == nil {
+			vs = []RedisMessage{}
+		}
+		m.setValues(vs)
+	case typeInteger, typeBool:
+		m.intlen = n
+	case typeNull:
+	default:
+		m.setString(s)
+	}
+	return m
+}
+
+// VerifRouteGroup is one parsed shard: primary first.
+type VerifRouteGroup struct {
+	Master string
+	Nodes  []string
+	Slots  [][2]int64
+}
+
+func verifRouteGroups(gs map[string]group) []VerifRouteGroup {
+	out := make([]VerifRouteGroup, 0, len(gs))
+	for k, g := range gs {
+		vg := VerifRouteGroup{Master: k, Slots: g.slots}
+		for _, n := range g.nodes {
+			vg.Nodes = append(vg.Nodes, n.Addr)
+		}
+		out = append(out, vg)
+	}
+	sort.Slice(out, func(i, j int) bool { return out[i].Master < out[j].Master })
+	return out
+}
+
+func VerifRouteParseSlots(m RedisMessage, defaultAddr string) []VerifRouteGroup {
+	return verifRouteGroups(parseSlots(m, defaultAddr))
+}
+
+func VerifRouteParseShards(m RedisMessage, defaultAddr string, tls bool) []VerifRouteGroup {
+	return verifRouteGroups(parseShards(m, defaultAddr, tls))
+}
+
+func VerifRouteParseEndpoint(fallback, endpoint string, port int64) string {
+	return parseEndpoint(fallback, endpoint, port)
+}
+
+// VerifRouteClusterTable reports, for the probed slots, the address wslots points to ("" = nil)
+// and the addresses of the read candidates in rslots (nil when rslots is not initialised).
+func VerifRouteClusterTable(c Client, slots []uint16) (w []string, r [][]string, ok bool) {
+	cc, ok := c.(*clusterClient)
+	if !ok {
+		return nil, nil, false
+	}
+	cc.mu.RLock()
+	defer cc.mu.RUnlock()
+	w = make([]string, len(slots))
+	r = make([][]string, len(slots))
+	for i, s := range slots {
+		if p := cc.wslots[s]; p != nil {
+			w[i] = p.Addr()
+		}
+		if cc.rslots != nil {
+			r[i] = []string{}
+			for _, n := range cc.rslots[s] {
+				r[i] = append(r[i], n.Addr)
+			}
+		}
+	}
+	return w, r, true
+}
+
+// VerifRouteClusterConns lists the addresses in the connection map.
+func VerifRouteClusterConns(c Client) []string {
+	cc, ok := c.(*clusterClient)
+	if !ok {
+		return nil
+	}
+	out := cc.nodes()
+	sort.Strings(out)
+	return out
+}
+
+// VerifRouteClusterRefresh forces a synchronous topology refresh.
+func VerifRouteClusterRefresh(c Client) error {
+	cc, ok := c.(*clusterClient)
+	if !ok {
+		return nil
+	}
+	return cc.refresh(context.Background())
+}
+
+// VerifRouteSentinelState reports the adopted addresses of a sentinel client.
+func VerifRouteSentinelState(c Client) (mAddr, rAddr, sAddr string, sentinels []string, ok bool) {
+	sc, ok := c.(*sentinelClient)
+	if !ok {
+		return "", "", "", nil, false
+	}
+	sc.mu.Lock()
+	defer sc.mu.Unlock()
+	if v := sc.mAddr.Load(); v != nil {
+		mAddr = v.(string)
+	}
+	if v := sc.rAddr.Load(); v != nil {
+		rAddr = v.(string)
+	}
+	sAddr = sc.sAddr
+	for e := sc.sentinels.Front(); e != nil; e = e.Next() {
+		sentinels = append(sentinels, e.Value.(string))
+	}
+	return mAddr, rAddr, sAddr, sentinels, true
+}
+
+// VerifRouteWaitOrSkipRetry runs the retry policy of retry.go for one decision.
+func VerifRouteWaitOrSkipRetry(fn RetryDelayFn, ctx context.Context, attempts int, cmd Completed, err error) bool {
+	return newRetryer(fn).WaitOrSkipRetry(ctx, attempts, cmd, err)
+}
+
+// VerifRouteDefaultRetryDelay is defaultRetryDelayFn.
+func VerifRouteDefaultRetryDelay(attempts int) time.Duration {
+	return defaultRetryDelayFn(attempts, Completed{}, nil)
+}
+
+// VerifRouteIsConnExpired tells whether err is the internal expired-connection marker.
+func VerifRouteIsConnExpired(err error) bool { return err == errConnExpired }
+
+// VerifRouteClientKind names the concrete client type behind the interface.
+func VerifRouteClientKind(c Client) string {
+	switch c.(type) {
+	case *clusterClient:
+		return "cluster"
+	case *sentinelClient:
+		return "sentinel"
+	case *standalone:
+		return "standalone"
+	case *singleClient:
+		return "single"
+	}
+	return "other"
+}
